@@ -141,6 +141,13 @@ class Evaluator:
         def b_identity(args):
             return args["obj"]
 
+        def b_range(args):
+            n = args["a"]
+            if not isinstance(n, int) or isinstance(n, bool):
+                raise Unspecified("range of " + kind(n))
+            return list(range(n))
+
+        g["range"] = Builtin("range", b_range, [("a", None, False)])
         g["append"] = Builtin("append", b_append,
                               [("lst", None, False), ("element", None, False)])
         g["length"] = Builtin("length", b_length, [("obj", None, False)])
